@@ -1,24 +1,26 @@
 /-
   Driver/Main.lean — `dvdriver`: reads one request per line on stdin, prints one answer
   per line on stdout.  Imports the model only (no Mathlib), so it links natively.
--/
-import Driver.Codec
 
-open DV DV.Codec
+  To add a command family: create Driver/<Name>Cmd.lean with
+      def handle (cmd : String) (rest : List String) : Option String
+  (return `none` for commands you do not own), import it here and add it to `handlers`.
+-/
+import Driver.CoreCmd
+
+def handlers : List (String → List String → Option String) :=
+  [ DV.CoreCmd.handle
+  ]
 
 def handle (line : String) : String :=
   let toks := (line.trimAscii.toString.splitOn " ").filter (· ≠ "")
   match toks with
   | [] => "bad empty"
+  | "ping" :: _ => "pong"
   | cmd :: rest =>
-    match cmd with
-    | "eval" =>
-      match (expr.run rest) with
-      | .error m => "bad " ++ m
-      | .ok (e, []) => pResult e.eval
-      | .ok (_, _) => "bad trailing tokens"
-    | "ping" => "pong"
-    | _ => "bad command " ++ cmd
+    match handlers.findSome? (fun h => h cmd rest) with
+    | some out => out
+    | none => "bad command " ++ cmd
 
 partial def loop (h : IO.FS.Stream) (out : IO.FS.Stream) : IO Unit := do
   let line ← h.getLine
